@@ -541,7 +541,32 @@ func translateSqrtFp(repo string, write func(name, imports, content string)) {
 			st[0] != "for i := 0; i < sqrtParam_Blocks; i++ { blocks[i][0].SetOne() for j := 1; j < (1 << sqrtParam_BlockSize); j++ { blocks[i][j].Mul(&blocks[i][j-1], &sqrtPrecomp_PrimitiveDyadicRoots[i*sqrtParam_BlockSize]) } }" || st[1] != "return" {
 			die("sqrtfp: init(): the precomputed-blocks closure has an unknown shape: %q", st)
 		}
-		sb.WriteString("/-- the closure that fills `sqrtPrecomp_PrecomputedBlocks` from the dyadic roots -/\ndef go_blocks (roots : List K) : List (List K) :=\n  let blocks : List (List K) := List.replicate sqrtParam_Blocks (List.replicate (1 <<< sqrtParam_BlockSize) 0)\n  let blocks := Loop.forNat 0 sqrtParam_Blocks blocks (fun i blocks =>\n      let blocks := blocks.set i ((blocks.getD i []).set 0 1)\n      let blocks := Loop.forNat 1 (1 <<< sqrtParam_BlockSize) blocks (fun j blocks =>\n          blocks.set i ((blocks.getD i []).set j (((blocks.getD i []).getD (j - 1) 0) * (roots.getD (i * sqrtParam_BlockSize) 0))))\n      blocks)\n  blocks\n\nend\n\n")
+		sb.WriteString("/-- the closure that fills `sqrtPrecomp_PrecomputedBlocks` from the dyadic roots -/\ndef go_blocks (roots : List K) : List (List K) :=\n  let blocks : List (List K) := List.replicate sqrtParam_Blocks (List.replicate (1 <<< sqrtParam_BlockSize) 0)\n  let blocks := Loop.forNat 0 sqrtParam_Blocks blocks (fun i blocks =>\n      let blocks := blocks.set i ((blocks.getD i []).set 0 1)\n      let blocks := Loop.forNat 1 (1 <<< sqrtParam_BlockSize) blocks (fun j blocks =>\n          blocks.set i ((blocks.getD i []).set j (((blocks.getD i []).getD (j - 1) 0) * (roots.getD (i * sqrtParam_BlockSize) 0))))\n      blocks)\n  blocks\n\n")
+		// (d) the discrete-log look-up table: a Go map, translated as an association list (newest entry first)
+		fl = closure(3, "sqrtPrecomp_dlogLUT")
+		st = nil
+		for _, s := range fl.Body.List {
+			st = append(st, stmtText(s))
+		}
+		wantLUT := []string{
+			"const LUTSize = 1 << sqrtParam_BlockSize",
+			"ret = make(map[uint16]uint, LUTSize)",
+			"var rootOfUnity feType_SquareRoot",
+			"rootOfUnity.SetOne()",
+			"for i := 0; i < LUTSize; i++ { const mask = LUTSize - 1 ret[uint16(rootOfUnity[0]&0xFFFF)] = uint((-i) & mask) rootOfUnity.Mul(&rootOfUnity, &sqrtPrecomp_ReconstructionDyadicRoot) }",
+			"if len(ret) != LUTSize { panic(\"failed to store all appropriate roots of unity in a map\") }",
+			"return",
+		}
+		if exprStr(fl.Type) != "func() (ret map[uint16]uint)" || len(st) != len(wantLUT) {
+			die("sqrtfp: init(): the look-up-table closure has an unknown shape: %q", st)
+		}
+		for k := range wantLUT {
+			if st[k] != wantLUT[k] {
+				die("sqrtfp: init(): look-up-table closure, statement %d is %q, expected %q", k, st[k], wantLUT[k])
+			}
+		}
+		sb.WriteString("/-- `LUTSize` -/\ndef lutSize : Nat := 1 <<< sqrtParam_BlockSize\n\n")
+		sb.WriteString("/-- the closure that fills `sqrtPrecomp_dlogLUT`: the Go map as an association list with the newest entry first\n(a later store to the same key hides the earlier one, as in the map); `uint((-i) & mask)` for the power-of-two\n`LUTSize = mask + 1` is `(LUTSize − i mod LUTSize) mod LUTSize`; the final `len(ret)` self-check is not translated -/\ndef go_lut (limb0 : K → Nat) (recon : K) : List (Nat × Nat) :=\n  let ret : List (Nat × Nat) := []\n  let rootOfUnity : K := 1\n  let st := Loop.forNat 0 lutSize (ret, rootOfUnity) (fun i st =>\n      let (ret, rootOfUnity) := st\n      let ret := (((limb0 rootOfUnity &&& (0xFFFF : Nat)) % 65536), ((lutSize - i % lutSize) % lutSize)) :: ret\n      let rootOfUnity := rootOfUnity * recon\n      (ret, rootOfUnity))\n  st.1\n\n/-- reading the map (a missing key reads 0) -/\ndef lutLookup (l : List (Nat × Nat)) (k : Nat) : Nat := ((l.find? (fun e => e.1 == k)).map (·.2)).getD 0\n\nend\n\n")
 	}
 	sb.WriteString("end SqrtFp\n")
 	write("SqrtFp.lean", "import GoIpa.Model.Loop\n", sb.String())
